@@ -1,7 +1,7 @@
 """C07 — parallel multiway merge: definite initialisation of the split tables, zero-length
 early return, exact input advancement, last-slab end, fork/join, worker writes,
 Stable propagation, fallback condition agreement."""
-from engine import ir, dtable, match, cfg as cfgm
+from engine import ir, dtable, match, skel, cfg as cfgm
 from engine.ir import kids, strip_casts, const_int, ref_of
 from rules.parcommon import check_fork_join
 
@@ -21,165 +21,216 @@ def ancestors(fn, node):
 
 
 def check_exact(ck, fn):
+    """SPLIT-DEFINITE-INIT: every row of the split table that is read when the chunks are cut was sized and filled by a
+    partition before, for every number of threads and for size == total as well as size < total.  Decided by evaluating
+    the function's index skeleton (thread count, tightness, loop indices) for T = 1..4 and both tightness values."""
     tag = "exact_splitting<%s>" % fn.targs[0]
-    sizep = fn.params[2]["did"]
-    nthreads = fn.params[6]["did"]
-    # ---- SPLIT-DEFINITE-INIT: the fill of offsets[num_threads - 1] must not sit in a loop that can run zero times
-    fills = []
-    for x in fn.nodes():
-        if "callee" in x and x["callee"]["name"] == "resize" and x.get("member_call"):
-            p = match.index_parts(kids(x)[0])
-            if p and ir.ref_name(p[0]) == "offsets":
-                fills.append((x, p[1]))
-    last = [(x, i) for x, i in fills if match.binop(i, ("-",)) and ref_of(match.binop(i, ("-",))[1]) == nthreads and const_int(match.binop(i, ("-",))[2]) == 1]
-    inloop = [(x, i) for x, i in fills if ref_of(i) is not None]
-    ck.require(inloop, "%s: per-slab offsets fill not found" % fn.loc)
-    reads_last = False
-    for x in fn.nodes():
-        b = match.binop(x, ("=",))
-        if b:
-            f = match.field_of(b[1])
-            if f and f[1] == "second":
-                reads_last = True
-    reads_lastslab = any(match.index_parts(y) and match.index_parts(match.index_parts(y)[0]) and ir.ref_name(match.index_parts(match.index_parts(y)[0])[0]) == "offsets"
-                         and ir.ref_name(match.index_parts(match.index_parts(y)[0])[1]) == "slab" for y in fn.nodes() if y["k"] in ("CXXOperatorCallExpr", "ArraySubscriptExpr"))
-    if not last:
-        # the last slab may simply extend to the end of the sequences (the caller limits the merge length and advances the inputs by what was merged)
-        guards = [x for x in fn.nodes() if x["k"] == "IfStmt" and any(ir.ref_name(y) == "tight" for y in ir.walk(kids(x)[0]))]
-        if guards:
-            ck.violation("SPLIT-DEFINITE-INIT", fn.qname, tag + ":missing", "offsets[num_threads - 1] is read when size < total but never filled", fn.loc)
-        else:
-            ck.ok("SPLIT-DEFINITE-INIT", tag, "offsets[s] filled for s < T-1; the last slab ends at the end of the sequences")
+    seqs_b, seqs_e = fn.params[0]["did"], fn.params[1]["did"]
+    sizep, totalp, nthreads = fn.params[2]["did"], fn.params[3]["did"], fn.params[6]["did"]
+    def is_table(ty):
+        """a container of containers: SimpleVector<std::vector<..>>, std::vector<std::vector<..>>"""
+        ty = (ty or "").replace(" ", "")
+        for outer in ("tlx::SimpleVector<", "std::vector<"):
+            if ty.startswith(outer) and ty[len(outer):].startswith(("std::vector<", "tlx::SimpleVector<")):
+                return True
+        return False
+    tables = {v["did"] for v in fn.nodes() if v["k"] == "VarDecl" and is_table(v.get("ty"))}
+    ck.require(len(tables) == 1, "%s: split table (simple_vector of vectors) not found" % fn.loc)
+    nreads = nfills = 0
+    bad = None
+    for T in (1, 2, 3, 4):
+        for tight in (True, False):
+            sized, filled, reads = set(), set(), []
+
+            def row_of(e):
+                ip = match.index_parts(e)
+                if ip and ref_of(ip[0]) in tables:
+                    return ip[1]
+                return None
+
+            def event(e, sk):
+                if "callee" in e and e.get("member_call") and e["callee"]["name"] == "resize" and kids(e):
+                    r = row_of(kids(e)[0])
+                    if r is not None:
+                        v = sk.ev(r)
+                        if v is None:
+                            raise dtable.Undecidable("%s: row index depends on data at line %s" % (fn.loc, e.get("l")))
+                        sized.add(v)
+                        return None
+                if "callee" in e and e["callee"]["name"] == "multisequence_partition":
+                    for a_ in kids(e):
+                        for z in ir.walk(a_):
+                            if "callee" in z and z["callee"]["name"] == "begin" and z.get("member_call") and row_of(kids(z)[0]) is not None:
+                                v = sk.ev(row_of(kids(z)[0]))
+                                if v is None:
+                                    raise dtable.Undecidable("%s: row index depends on data at line %s" % (fn.loc, e.get("l")))
+                                if v not in sized:
+                                    reads.append((v, e, "is written by the partition before it was sized"))
+                                filled.add(v)
+                    return None
+                ip = match.index_parts(e)
+                if ip is not None and row_of(ip[0]) is not None:
+                    v = sk.ev(row_of(ip[0]))
+                    if v is None:
+                        raise dtable.Undecidable("%s: row index depends on data at line %s" % (fn.loc, e.get("l")))
+                    reads.append((v, e, None if v in filled else "is read but was never filled"))
+                    return None
+                return NotImplemented
+
+            def unknown(e, sk):
+                b_ = match.binop(e, ("-",)) if e["k"] in ("BinaryOperator", "CXXOperatorCallExpr") else None
+                if b_ and ref_of(b_[1]) == seqs_e and ref_of(b_[2]) == seqs_b:
+                    return 2
+                return None
+            env = {nthreads: T, totalp: 6, sizep: 6 if tight else 4}
+            sk = skel.Skel(fn, env, unknown, event)
+            try:
+                sk.run(kids(fn.body))
+            except skel.Return:
+                pass
+            nreads += len([r for r in reads if r[2] is None])
+            nfills += len(filled)
+            for v, e, why in reads:
+                if why and bad is None:
+                    bad = (T, tight, v, e, why)
+    if nreads == 0 or nfills == 0:
+        raise ir.AnalysisBroken("%s: no reads / fills of the split table seen" % fn.loc)
+    if bad:
+        T, tight, v, e, why = bad
+        ck.violation("SPLIT-DEFINITE-INIT", fn.qname, tag + ":row", "with %d thread%s and size %s total, row %d of the split table %s"
+                     % (T, "" if T == 1 else "s", "==" if tight else "<", v, why), fn.nloc(e))
     else:
-        x = last[0][0]
-        loops = [a for a in ancestors(fn, x) if a["k"] in ("ForStmt", "WhileStmt")]
-        if loops:
-            ck.violation("SPLIT-DEFINITE-INIT", fn.qname, tag + ":in-loop",
-                         "offsets[num_threads - 1] is filled inside a loop over the first num_threads - 1 slabs: with one thread the loop does not run and the "
-                         "table is read empty", fn.nloc(x))
-        else:
-            ck.ok("SPLIT-DEFINITE-INIT", tag, "offsets[s] filled for s < T-1 in the slab loop, offsets[T-1] unconditionally when !tight")
+        ck.ok("SPLIT-DEFINITE-INIT", tag, "every row read while cutting the chunks was sized and filled before, for T = 1..4, size == total and size < total "
+              "(%d reads, %d fills over the 8 configurations)" % (nreads, nfills))
 
 
-def slab_model(fn, lam, sizep):
-    """resolves the arguments of the per-thread multiway_merge_base call to functions of (L, S, P): the slab's own size,
-    the requested size and the slab's output position.  Works for quantities computed inside the worker and for
-    quantities precomputed per slab in vectors indexed by the worker's index."""
-    ctxs = [c for c in (lam, fn) if c is not None]
-    calls = [(c, z) for c in ctxs for z in c.nodes() if "callee" in z and z["callee"]["name"] == "multiway_merge_base"]
-    if len(calls) != 1:
-        return dict(problem="expected exactly one per-thread multiway_merge_base call, found %d" % len(calls))
-    ctx, call = calls[0]
-    a = kids(call)
-    # stores into per-slab vectors in the enclosing function:  vec[j] = expr
+IAM = 3      # the slab index used when a per-slab fragment is evaluated
+
+
+def int_vector_stores(fn):
+    """stores `vec[j] = expr` into local std::vector<integral> in fn -> {vec did: [store nodes]}"""
     stores = {}
     for z in fn.nodes():
         b = match.binop(z, ("=",)) if z["k"] in ("BinaryOperator", "CXXOperatorCallExpr") else None
         if b:
             ip = match.index_parts(b[1])
             if ip and ir.ref_of(ip[0]) is not None and "vector" in (strip_casts(ip[0]).get("ty") or ""):
-                stores.setdefault(ir.ref_of(ip[0]), []).append((b[2], z))
+                stores.setdefault(ir.ref_of(ip[0]), []).append(z)
+    return stores
 
-    def accum_kind(c, did):
-        """'P' for v += chunks[i][s].first - seqs[s].first, 'L' for v += chunks[i][s].second - chunks[i][s].first"""
-        kinds = set()
-        for z in c.nodes():
-            if z["k"] == "CompoundAssignOperator" and z.get("op") == "+=" and ref_of(kids(z)[0]) == did:
-                d = match.binop(kids(z)[1], ("-",))
-                if not d:
-                    return None
-                l, r = match.field_of(d[1]), match.field_of(d[2])
+
+def slab_loops(fn, stores):
+    """the loops of fn whose body fills the per-slab vectors: [(loop, index var did)]"""
+    out = []
+    for vec, sts in stores.items():
+        for z in sts:
+            loops = [a for a in ancestors(fn, z) if a["k"] in ("ForStmt", "WhileStmt")]
+            if not loops:
+                continue
+            lp = loops[-1]
+            init = match.loop_parts(lp)[0]
+            vs = [x["did"] for x in ir.walk(init) if x["k"] == "VarDecl"] if init is not None else []
+            if len(vs) == 1 and not any(l is lp for l, _ in out):
+                out.append((lp, vs[0]))
+    return out
+
+
+class SlabEval:
+    """evaluates the per-slab integer quantities of parallel_multiway_merge_base on one point (L, S, P): a slab holding
+    L elements whose first output position is P, for a requested size S.  The differences of chunk cursors are the data:
+    chunk.first - sequence.first sums to P, chunk.second - chunk.first sums to L (one sequence)."""
+
+    def __init__(self, fn, lam, sizep, idxvar):
+        self.fn, self.lam, self.sizep, self.idxvar = fn, lam, sizep, idxvar
+        self.stores = int_vector_stores(fn)
+        self.loops = slab_loops(fn, self.stores)
+        self.outer = set()
+        for lp, _ in self.loops:
+            inside = {x["did"] for x in ir.walk(lp) if x["k"] == "VarDecl"}
+            for z in ir.walk(lp):
+                b = match.binop(z, ("=",)) if z["k"] == "BinaryOperator" else None
+                if b and ref_of(b[1]) is not None and ref_of(b[1]) not in inside:
+                    self.outer.add(ref_of(b[1]))
+
+    def point(self, L, S, P):
+        """-> dict(pos, length (0 if no merge is started), called, env)"""
+        merged = []
+
+        def event(e, sk):
+            b = match.binop(e, ("-",)) if e["k"] in ("BinaryOperator", "CXXOperatorCallExpr") else None
+            if b:
+                l, r = match.field_of(b[1]), match.field_of(b[2])
                 if l and r and l[1] == "first" and r[1] == "first":
-                    kinds.add("P")
-                elif l and r and l[1] == "second" and r[1] == "first":
-                    kinds.add("L")
+                    return P
+                if l and r and l[1] == "second" and r[1] == "first":
+                    return L
+            if "callee" in e and e["callee"]["name"] == "multiway_merge_base":
+                a = kids(e)
+                tb = match.binop(a[2], ("+",))
+                if tb and ir.ref_name(tb[1]) == "target":
+                    pos = sk.ev(tb[2])
+                elif ir.ref_name(a[2]) == "target":
+                    pos = 0
                 else:
-                    return None
-        return kinds.pop() if len(kinds) == 1 else None
-
-    def build(e, c, depth=0):
-        """expression -> python function of (L, S, P) or None"""
-        e = match.strip_conv(e)
-        if depth > 8 or e is None:
-            return None
-        v = const_int(e)
-        if v is not None:
-            return lambda L, S, P, v=v: v
-        if e["k"] == "ParenExpr":
-            return build(kids(e)[0], c, depth + 1)
-        if ref_of(e) == sizep:
-            return lambda L, S, P: S
-        d = ref_of(e)
-        if d is not None:
-            k = accum_kind(c, d) or (accum_kind(fn, d) if c is not fn else None)
-            if k == "P":
-                return lambda L, S, P: P
-            if k == "L":
-                return lambda L, S, P: L
-            for cc in (c, fn):
-                for z in cc.nodes():
-                    if z["k"] == "VarDecl" and z.get("did") == d and kids(z) and kids(z)[0] is not None:
-                        return build(kids(z)[0], cc, depth + 1)
-            return None
-        ip = match.index_parts(e)
-        if ip and ref_of(ip[0]) in stores and len(stores[ref_of(ip[0])]) == 1:
-            return build(stores[ref_of(ip[0])][0][0], fn, depth + 1)
-        if "callee" in e and e["callee"]["name"] in ("min", "max") and len(kids(e)) == 2:
-            f, g = build(kids(e)[0], c, depth + 1), build(kids(e)[1], c, depth + 1)
-            if f is None or g is None:
+                    pos = None
+                merged.append((pos, sk.ev(a[3]), e))
                 return None
-            op = min if e["callee"]["name"] == "min" else max
-            return lambda L, S, P: op(f(L, S, P), g(L, S, P))
-        b = match.binop(e, ("-", "+"))
-        if b:
-            f, g = build(b[1], c, depth + 1), build(b[2], c, depth + 1)
-            if f is None or g is None:
-                return None
-            if b[0] == "-":
-                return lambda L, S, P: f(L, S, P) - g(L, S, P)
-            return lambda L, S, P: f(L, S, P) + g(L, S, P)
-        return None
-    # destination: target + position
-    tb = match.binop(a[2], ("+",))
-    pos = build(tb[2], ctx) if tb and ir.ref_name(tb[1]) == "target" else None
-    if pos is None or any(pos(L, S, P) != P for L in (0, 2) for S in (0, 5) for P in (0, 3, 7)):
-        return dict(problem="the worker does not write to target + (sum over the sequences of chunk begin - sequence begin): %s" % dtable.describe(a[2])[:80])
-    length = build(a[3], ctx)
-    if length is None:
-        return dict(problem="the length handed to the per-thread merge is not understood: %s" % dtable.describe(a[3])[:80])
-    # the chunk row merged is the worker's own
-    rows = [match.index_parts(kids(z)[0]) for z in ir.walk(a[0]) if "callee" in z and z["callee"]["name"] in ("begin", "end") and match.index_parts(kids(z)[0])]
-    if not rows or ir.ref_name(rows[0][0]) != "chunks":
-        return dict(problem="the worker does not merge a row of chunks[]")
-    return dict(length=length, call=call, ctx=ctx, stores=stores, length_expr=a[3])
+            return NotImplemented
+
+        def unknown(e, sk):
+            if e["k"] == "DeclRefExpr" and any(t in (e.get("ty") or "") for t in ("size_t", "unsigned long", "int", "long")) \
+                    and "*" not in (e.get("ty") or "") and "iterator" not in (e.get("ty") or ""):
+                return 1         # number of sequences: one sequence carries the whole slab
+            return None
+        env = {self.sizep: S}
+        for d in self.outer:
+            env[d] = -1          # "not set by this slab"
+        for lp, var in self.loops:
+            sk = skel.Skel(self.fn, env, unknown, event)
+            sk.env[var] = IAM
+            sk.stmt(match.loop_parts(lp)[3])
+            env = sk.env
+        slab_env = dict(env)
+        ctx = self.lam if self.lam is not None else None
+        if ctx is not None:
+            sk = skel.Skel(ctx, env, unknown, event)
+            if self.idxvar is not None:
+                sk.env[self.idxvar] = IAM
+            try:
+                sk.run(kids(ctx.body))
+            except skel.Return:
+                pass
+        if len(merged) > 1:
+            raise dtable.Undecidable("%s: a worker starts more than one merge" % self.fn.loc)
+        if merged:
+            pos, ln, call = merged[0]
+            return dict(pos=pos, length=ln, called=True, env=slab_env, call=call)
+        return dict(pos=None, length=0, called=False, env=slab_env, call=None)
 
 
-def last_active_slab(fn, slab, sizes):
-    """the slab whose cursors are handed back must be one that merged something: a variable that is only ever set to a slab
-    index under a `length > 0` test of that slab"""
+GRID = [(L, S, P) for L in range(0, 4) for S in range(0, 7) for P in range(0, 9)]
+
+
+def last_active_slab(fn, slab, se):
+    """the slab whose cursors are handed back must be one that merged something: a variable that the per-slab fragment
+    sets to the slab's index exactly when the slab merges at least one element"""
     d = ref_of(slab)
     if d is None:
         return False, "which is a fixed slab (%s)" % dtable.describe(slab)
-    assigns = []
-    for z in fn.nodes():
-        b = match.binop(z, ("=",)) if z["k"] == "BinaryOperator" else None
-        if b and ref_of(b[1]) == d:
-            assigns.append(z)
-    if not assigns:
+    if d not in se.outer:
+        assigned = any(match.binop(z, ("=",)) and ref_of(match.binop(z, ("=",))[1]) == d for z in fn.nodes() if z["k"] == "BinaryOperator")
+        if assigned:
+            raise dtable.Undecidable("%s: %s is set outside the per-slab loop" % (fn.loc, dtable.describe(slab)))
         return False, "which is never set to the last active slab"
-    for z in assigns:
-        par = fn.parent(z)
-        while par is not None and par["k"] != "IfStmt":
-            par = fn.parent(par)
-        if par is None:
-            return False, "which is set unconditionally"
-        c = match.binop(kids(par)[0], (">", "!=", ">="))
-        if not c or not ((c[0] in (">", "!=") and const_int(c[2]) == 0) or (c[0] == ">=" and const_int(c[2]) == 1)):
-            return False, "which is set under a condition that is not a positive-length test"
-        ip = match.index_parts(c[1])
-        jv = ref_of(match.binop(z, ("=",))[2])
-        if not ip or ref_of(ip[1]) != jv or ref_of(ip[0]) not in (sizes.get("stores") or {}):
-            return False, "whose guard does not test the length of the slab it records"
+    for L, S, P in GRID:
+        r = se.point(L, S, P)
+        got = r["env"].get(d)
+        if got not in (-1, IAM):
+            return False, "which is set to something other than the slab's index"
+        active = r["called"] and r["length"] is not None and r["length"] > 0
+        if (got == IAM) != active:
+            return False, ("which is recorded for a slab that merges nothing (local %d, position %d, size %d)" % (L, P, S)) if got == IAM else \
+                ("which is not recorded for a slab that merges %d elements (local %d, position %d, size %d)" % (r["length"], L, P, S))
     return True, ""
 
 
@@ -204,7 +255,7 @@ def check_base(ck, tu, fn):
         ck.violation("ZERO-LENGTH", fn.qname, tag, "a merge of zero elements from non-empty inputs reaches the splitter, whose ranks are then -1", fn.loc)
     # ---- slab quantities: where each worker writes, how much, and which slab's cursors are handed back
     lam, idxvar = check_fork_join(ck, tu, fn, tag)
-    sizes = slab_model(fn, lam, sizep)
+    se = SlabEval(fn, lam, sizep, idxvar)
     if lam is not None:
         writes = []
         for y in lam.nodes():
@@ -213,29 +264,39 @@ def check_base(ck, tu, fn):
                 t = strip_casts(b[1])
                 if not (t["k"] == "DeclRefExpr" and t["ref"]["kind"] == "local"):
                     writes.append(y)
+        calls = [z for z in lam.nodes() if "callee" in z and z["callee"]["name"] == "multiway_merge_base"]
+        rows = [match.index_parts(kids(z)[0]) for c in calls for z in ir.walk(kids(c)[0]) if "callee" in z and z["callee"]["name"] in ("begin", "end") and match.index_parts(kids(z)[0])]
+        # where the slab is written and how much of it: on a grid of (local size L, requested size S, slab position P)
+        badpos = badlen = None
+        for L, S, P in GRID:
+            r = se.point(L, S, P)
+            if r["called"] and (r["pos"] is None or r["length"] is None):
+                raise dtable.Undecidable("%s: destination / length of the per-thread merge not understood" % lam.loc)
+            want = max(0, min(L, S - P))
+            if r["called"] and r["length"] != 0 and r["pos"] != P and badpos is None:
+                badpos = (L, S, P, r)
+            if r["length"] != want and badlen is None:
+                badlen = (L, S, P, r["length"], want, r)
         if writes:
             ck.violation("WORKER-WRITES", fn.qname, tag, "the worker lambda writes shared state directly: %s" % dtable.describe(writes[0])[:60], lam.nloc(writes[0]))
-        elif sizes.get("problem"):
-            ck.violation("WORKER-WRITES", fn.qname, tag + ":merge", sizes["problem"], lam.loc)
+        elif len(calls) != 1:
+            ck.violation("WORKER-WRITES", fn.qname, tag + ":merge", "expected exactly one per-thread multiway_merge_base call, found %d" % len(calls), lam.loc)
+        elif not rows or ir.ref_name(rows[0][0]) != "chunks":
+            ck.violation("WORKER-WRITES", fn.qname, tag + ":merge", "the worker does not merge a row of chunks[]", lam.loc)
+        elif badpos:
+            L, S, P, r = badpos
+            ck.violation("WORKER-WRITES", fn.qname, tag + ":merge", "the worker does not write to target + (sum over the sequences of chunk begin - sequence begin): "
+                         "a slab at position %d is written to target + %s" % (P, r["pos"]), lam.nloc(calls[0]))
         else:
             ck.ok("WORKER-WRITES", tag, "the worker only updates locals and merges its own chunk row into target + (sum of the slab's offsets)")
-        if not sizes.get("problem"):
-            # the length handed to the per-thread merge, as a function of (local size L, requested size S, slab position P)
-            bad = None
-            for L in range(0, 4):
-                for S in range(0, 7):
-                    for P in range(0, 9):
-                        got = sizes["length"](L, S, P)
-                        want = max(0, min(L, S - P))
-                        if got != want and bad is None:
-                            bad = (L, S, P, got, want)
-            if bad:
-                L, S, P, got, want = bad
-                ck.violation("SLAB-LENGTH", fn.qname, tag, "a slab with %d elements that starts at output position %d merges %d elements for a requested size of %d "
-                             "(it must merge max(0, min(local, size - position)) = %d): with sampling splitting a slab can begin behind `size`, the negative "
-                             "length then writes past the requested range" % (L, P, got, S, want), lam.nloc(sizes["call"]))
-            else:
-                ck.ok("SLAB-LENGTH", tag, "length = max(0, min(local size, size - position)) on a 4x7x9 grid of (local, size, position)")
+        if badlen:
+            L, S, P, got, want, r = badlen
+            ck.violation("SLAB-LENGTH", fn.qname, tag, "a slab with %d elements that starts at output position %d merges %d elements for a requested size of %d "
+                         "(it must merge max(0, min(local, size - position)) = %d): with sampling splitting a slab can begin behind `size`, the negative "
+                         "length then writes past the requested range" % (L, P, got, S, want), lam.nloc(calls[0]) if calls else lam.loc)
+        else:
+            ck.ok("SLAB-LENGTH", tag, "merged length = max(0, min(local size, size - position)) on a 4x7x9 grid of (local, size, position), "
+                  "evaluated through the per-slab fragment and the worker")
     # ---- ADVANCE-EXACT
     adv = []
     for x in fn.nodes():
@@ -249,7 +310,7 @@ def check_base(ck, tu, fn):
                     adv.append((x, f2[1], match.index_parts(pp[0])[1]))
     ck.require(len(adv) == 1, "%s: input advancement not found" % fn.loc)
     x, member, slab = adv[0]
-    slab_ok, why = last_active_slab(fn, slab, sizes)
+    slab_ok, why = last_active_slab(fn, slab, se)
     if member != "first":
         ck.violation("ADVANCE-EXACT", fn.qname, tag, "inputs are advanced to chunks[%s].%s: the end of a slab, not the position up to which it was merged "
                      "(with sampling splitting and size < total the inputs appear fully consumed)" % (dtable.describe(slab), member), fn.nloc(x))
